@@ -150,6 +150,41 @@ def rule_d(F):
     return res
 
 
+def rule_j(F):
+    """C12.J: a resize moves entries, it does not insert them. The entries of a map are distinct by construction, whatever
+    their keys compare like at the time of the resize (keys compared by content - tables used as table keys - can become
+    equal after they were stored). The function that re-allocates the storage therefore must not go through anything that
+    looks for an equal key (insert / insert_with_hint / entry / find_ind / a PartialEq::eq on keys): an equal key found
+    there replaces an entry, the count comes out short and the consistency assertion panics in an unrelated insert."""
+    res = []
+    cands = [f for f in F.fns if f.mir and not f.is_closure and "collections::hash_map::CaoHashMap" in f.path and
+             any(any(n.endswith("alloc_storage") for n in callee_names(t["func"])) for _bi, t in mu.calls(f))]
+    resizers = [f for f in cands if any(st["k"] == "assign" and mu.field_path(st["place"])[-1:] == ["count"] for b in f.blocks for st in b["stmts"])
+                or any(any(n.endswith("mem::replace") or n.endswith("mem::swap") for n in callee_names(t["func"])) for _bi, t in mu.calls(f))]
+    resizers = [f for f in resizers if f.cfg.back_edges()]
+    if not resizers:
+        raise AnchorMissing("the re-allocating function of CaoHashMap (alloc_storage + a loop over the old slots)")
+    for f in resizers:
+        key = "C12/J/%s/entries-are-moved-not-inserted" % f.name
+        offenders = []
+        for bi, t in mu.calls(f):
+            for n in callee_names(t["func"]):
+                last = n.rsplit("::", 1)[-1]
+                if ("CaoHashMap::" in n and last in ("insert", "insert_with_hint", "entry", "find_ind", "get", "get_mut", "contains", "remove", "remove_with_hint")) \
+                        or n.endswith("PartialEq::eq") or n.endswith("cmp::PartialEq::ne"):
+                    offenders.append((t, n))
+        if offenders:
+            t, n = offenders[0]
+            res.append(bad("C12.J", key, f.loc(t.get("ln")),
+                           "%s re-inserts the entries of the old storage through %s, which looks for an equal key first: two keys that are "
+                           "compared by content and became equal after they were stored (tables used as keys and mutated since) collapse "
+                           "into one entry, the count comes out short and the 'inconsistent count' assertion panics in the middle of an "
+                           "unrelated insert" % (f.name, n.rsplit("::", 1)[-1])))
+        else:
+            res.append(ok("C12.J", key, f.loc(), "the old entries are copied to free slots of their probe sequences; no key comparison"))
+    return res
+
+
 def rule_w(F):
     """C12.W: a slot never keeps a dropped element. In a function that drops an element in place and does not empty the slot
     (no hash is zeroed there), every `drop_in_place(<array>.add(i))` is followed, on every path to the return, by a
@@ -441,6 +476,7 @@ def rule_k(F):
 
 RULES = [
     Rule("C12.D", rule_d, 5, "a needs_drop test gates only the drops of its own element type"),
+    Rule("C12.J", rule_j, 1, "a resize moves the entries without comparing keys"),
     Rule("C12.W", rule_w, 2, "a slot that stays occupied never keeps a dropped element"),
     Rule("C12.F", rule_f, 2, "when the growth test declines a free slot remains after the insertion"),
     Rule("C12.K", rule_k, 2, "every resize leaves a free slot"),
